@@ -605,10 +605,12 @@ def decide(rep: Report, m: Dict[str, Any], v, model_ok: bool, inst: Dict[str, in
         return
     # (b) rows per table
     if model_ok and rows_ok != 1:
-        if in_f:
-            bad.append((m, "rows per table differ from the model's flush inside the fragment"))
+        # flush is exact wherever to_dao is modelled (no alternatively mapped objects) and the DAO graph fits the schema:
+        # repeated elements and self-referential values change the reload, not the rows written
+        if in_f or (frag & 3) == 3:
+            bad.append((m, "rows per table / association table differ from the model's flush (one row per object and per collection element)"))
             return
-        rep.note(f"{m['origin']}: rows per table differ from the model's flush (outside F05)")
+        rep.note(f"{m['origin']}: rows per table differ from the model's flush (graph with alternatively mapped objects)")
     if code == 0:
         return
     if code == 1:
